@@ -790,7 +790,11 @@ def rule_h(repo, chk):
     a = repo.func(MANAGER, 'Manager.addHandler')
     chk.touch(a)
     g = a.cfg()
+    # the bound handler: what addHandler returns (and files into the tables)
     mv = 'method'
+    for n_ in walk_no_defs(a.node):
+        if isinstance(n_, ast.Return) and isinstance(n_.value, ast.Name):
+            mv = n_.value.id
 
     def files(n, table, key):
         """statement *n* puts the handler into `table` under `key` (setdefault(...).add / [key].add / |= forms)."""
